@@ -25,6 +25,8 @@ typedef struct {
   int nfp; /* -1: not set (derive from op), 0..: explicit */
   int kind; /* the harness's label of a pending point (hook kind and argument): part of the state */
   int jt;
+  long long deadline_ns; int dclk; /* absolute deadline of a timed wait and its clock */
+  int timed, timedout; /* condition wait with a deadline; woken by the (injected) expiry of that deadline */
   unsigned fval; /* OP_FUTEX: the value the word must have left for the waiter to continue */
   volatile int go;
   pthread_t real;
@@ -42,6 +44,8 @@ static struct { void *m; int owner; uint32_t vc[VS_MAXT]; } MU[MAXMU];
 static int nmu = 0;
 static uint32_t VC[VS_MAXT][VS_MAXT];
 static unsigned long cvseq_ctr = 0;
+static long long clock_skew_ns = 0; /* virtual clock, see clock_gettime() below */
+static long long real_now_ns(int clk);
 /* futex words (libstdc++'s std::future/promise/async shared state) and pthread_once controls */
 #define MAXFX 512
 static struct { void *a; uint32_t vc[VS_MAXT]; } FX[MAXFX];
@@ -316,6 +320,8 @@ static void reschedule(void) {
         int w = spur[idx - n];
         T[w].op = OP_LOCK;
         T[w].obj = T[w].obj2;
+        if (T[w].timed) { long long nowv = real_now_ns(T[w].dclk) + clock_skew_ns; if (nowv <= T[w].deadline_ns) clock_skew_ns += T[w].deadline_ns - nowv + 1000; }
+        if (T[w].timed) T[w].timedout = 1; /* a timed wait is released by its deadline (however long a stall that needs), an untimed one spuriously */
         vs_spurious--;
         continue;
       }
@@ -351,6 +357,7 @@ void vs_begin(void) {
   nmu = 0;
   nfx = 0;
   non = 0;
+  clock_skew_ns = 0;
   vs_futex_ops = 0;
   nthr = 1;
   cur = 0;
@@ -469,8 +476,27 @@ int pthread_mutex_unlock(pthread_mutex_t *m) {
   if (vs_unlock_points) { T[me].kind = 500; point(OP_POINT, m, vs_group_of ? vs_group_of(OP_LOCK, m) : -1); }
   return 0;
 }
-static int model_wait(pthread_cond_t *c, pthread_mutex_t *m) {
+/* virtual clock: while a scenario runs, clock_gettime() = real clock + skew. When the deadline of a timed wait is injected the skew
+   jumps past that deadline, because libstdc++ decides "timeout or not" by reading the clock again after the wait returns. */
+static long long real_now_ns(int clk) {
+  struct timespec ts;
+  syscall(SYS_clock_gettime, clk, &ts);
+  return (long long)ts.tv_sec * 1000000000LL + ts.tv_nsec;
+}
+int clock_gettime(clockid_t clk, struct timespec *ts) {
+  long r = syscall(SYS_clock_gettime, clk, ts);
+  if (r == 0 && active && clock_skew_ns && (clk == CLOCK_MONOTONIC || clk == CLOCK_REALTIME)) {
+    long long t = (long long)ts->tv_sec * 1000000000LL + ts->tv_nsec + clock_skew_ns;
+    ts->tv_sec = t / 1000000000LL;
+    ts->tv_nsec = t % 1000000000LL;
+  }
+  return (int)r;
+}
+static int model_wait_dl(pthread_cond_t *c, pthread_mutex_t *m, int clk, const struct timespec *ts);
+static int model_wait(pthread_cond_t *c, pthread_mutex_t *m, int timed) {
   int me = cur;
+  T[me].timed = timed;
+  T[me].timedout = 0;
   /* scheduling point while the mutex is still held: another thread that touches the predicate WITHOUT the
      mutex (and notifies) can run between the waiter's predicate test and its parking - the lost wake-up window */
   point(OP_POINT, m, vs_group_of ? vs_group_of(OP_LOCK, m) : -1);
@@ -490,28 +516,35 @@ static int model_wait(pthread_cond_t *c, pthread_mutex_t *m) {
   MU[i].owner = me;
   vc_join(VC[me], MU[i].vc);
   T[me].op = OP_NONE;
+  T[me].timed = 0;
+  if (T[me].timedout) { T[me].timedout = 0; return ETIMEDOUT; } /* the deadline of a timed wait passed (injected like a spurious wake-up) */
   return 0;
+}
+static int model_wait_dl(pthread_cond_t *c, pthread_mutex_t *m, int clk, const struct timespec *ts) {
+  T[cur].deadline_ns = ts ? (long long)ts->tv_sec * 1000000000LL + ts->tv_nsec : 0;
+  T[cur].dclk = clk;
+  return model_wait(c, m, 1);
 }
 int pthread_cond_wait(pthread_cond_t *c, pthread_mutex_t *m) {
   if (!modelled()) {
     resolve();
     return real_cwait(c, m);
   }
-  return model_wait(c, m);
+  return model_wait(c, m, 0);
 }
 int pthread_cond_timedwait(pthread_cond_t *c, pthread_mutex_t *m, const struct timespec *ts) {
   if (!modelled()) {
     resolve();
     return real_ctimedwait(c, m, ts);
   }
-  return model_wait(c, m); /* time-outs are not modelled: a timed wait is a wait */
+  return model_wait_dl(c, m, CLOCK_REALTIME, ts); /* the deadline may pass at any moment the thread is parked: injected within the spurious wake-up budget, the wait then returns ETIMEDOUT */
 }
 int pthread_cond_clockwait(pthread_cond_t *c, pthread_mutex_t *m, clockid_t clk, const struct timespec *ts) {
   if (!modelled()) {
     resolve();
     return real_cclockwait(c, m, clk, ts);
   }
-  return model_wait(c, m);
+  return model_wait_dl(c, m, clk, ts);
 }
 int pthread_cond_broadcast(pthread_cond_t *c) {
   if (!modelled()) {
